@@ -296,6 +296,33 @@ impl Sys {
                 cm.delete_ca(&h(ca), actor, krill)?;
                 Ok("ok".into())
             }
+            ["reloadcheck"] | ["reloadcheck", _] => {
+                // C06: for every CA (and the TA proxy/signer) the live state, the state a fresh
+                // store object loads (latest snapshot + later commands) and the state rebuilt
+                // from the stored commands alone must be the same. `reloadcheck snap` first
+                // runs the snapshot task, so that the fresh load starts from a snapshot of the
+                // current state; without it the snapshot (if any) is an older one.
+                if w.len() == 2 {
+                    krill.tasks().schedule(Task::UpdateSnapshots, krill::server::mq::now())?;
+                    self.drain();
+                }
+                let mut diffs: Vec<String> = vec![];
+                let mut handles = cm.ca_handles().unwrap_or_default();
+                handles.sort_by_key(|h| h.to_string());
+                let live: Vec<(String, Value)> = handles.iter().filter_map(|hd| {
+                    cm.get_ca(hd).ok().map(|ca| (hd.to_string(), serde_json::to_value(&*ca).unwrap_or(Value::Null)))
+                }).collect();
+                diffs.extend(self.reload_diff::<krill::server::ca::CertAuth>("cas", &live));
+                if let Ok(p) = cm.get_trust_anchor_proxy() {
+                    let live = vec![("ta".to_string(), serde_json::to_value(&*p).unwrap_or(Value::Null))];
+                    diffs.extend(self.reload_diff::<krill::server::taproxy::TrustAnchorProxy>("ta_proxy", &live));
+                }
+                if let Ok(p) = cm.get_trust_anchor_signer() {
+                    let live = vec![("ta".to_string(), serde_json::to_value(&*p).unwrap_or(Value::Null))];
+                    diffs.extend(self.reload_diff::<krill::tasigner::TrustAnchorSigner>("ta_signer", &live));
+                }
+                if diffs.is_empty() { Ok(format!("ok:same:{}", live.len())) } else { Ok(format!("ok:diff:{}", diffs.join(";"))) }
+            }
             ["history", ca] => {
                 let hist = cm.ca_history(&h(ca), krill::api::history::CommandHistoryCriteria::default())?;
                 Ok(format!("ok:{}", hist.total))
@@ -551,6 +578,60 @@ impl Sys {
         all
     }
 
+    /// Compares the given live states (serde JSON by handle) of the aggregates in `ns` with what
+    /// a fresh store object loads and with a replay of the stored commands alone (a copy of
+    /// the `command-N` keys in a scratch namespace). Returns `<ns>/<handle>:<route>:<json path>`
+    /// for every difference.
+    fn reload_diff<A: krill::commons::eventsourcing::Aggregate + serde::Serialize>(
+        &self, ns: &str, live: &[(String, Value)],
+    ) -> Vec<String> {
+        use krill::commons::eventsourcing::AggregateStore;
+        static COPY: std::sync::atomic::AtomicU64 = std::sync::atomic::AtomicU64::new(0);
+        let mut out = vec![];
+        let storage = self.krill.storage();
+        let nsid = Ident::boxed_from_string(ns.to_string()).unwrap();
+        let copy_name = format!("verifcopy{}{}", COPY.fetch_add(1, std::sync::atomic::Ordering::SeqCst), ns.replace('_', ""));
+        let copyid = Ident::boxed_from_string(copy_name).unwrap();
+        // the stored commands alone
+        if let (Ok(src), Ok(dst)) = (storage.open(&nsid), storage.open(&copyid)) {
+            for sc in src.scopes().unwrap_or_default() {
+                for k in src.keys(Some(&sc), "command-").unwrap_or_default() {
+                    let v: Option<Value> = src.get(Some(&sc), &k).unwrap_or(None);
+                    if let Some(v) = v {
+                        let _ = dst.store(Some(&sc), &k, &v);
+                    }
+                }
+            }
+        }
+        let fresh = AggregateStore::<A>::create(storage, &nsid, false);
+        let scratch = AggregateStore::<A>::create(storage, &copyid, false);
+        for (hd, live_v) in live {
+            let handle = rpki::ca::idexchange::MyHandle::from_str(hd).unwrap();
+            for (route, store) in [("snapshot", &fresh), ("scratch", &scratch)] {
+                match store {
+                    Err(e) => out.push(format!("{ns}/{hd}:{route}:store-error:{e}")),
+                    Ok(st) => match std::panic::catch_unwind(std::panic::AssertUnwindSafe(|| st.get_latest(&handle))) {
+                        Err(_) => out.push(format!("{ns}/{hd}:{route}:PANIC")),
+                        Ok(Err(_)) => out.push(format!("{ns}/{hd}:{route}:load-error")),
+                        Ok(Ok(agg)) => {
+                            let v = serde_json::to_value(&*agg).unwrap_or(Value::Null);
+                            if let Some(path) = json_first_diff(live_v, &v, "") {
+                                out.push(format!("{ns}/{hd}:{route}:{path}"));
+                            }
+                        }
+                    },
+                }
+            }
+        }
+        // remove the scratch copy again
+        if let Ok(dst) = storage.open(&copyid) {
+            for sc in dst.scopes().unwrap_or_default() {
+                let _ = dst.drop_scope(&sc);
+            }
+        }
+        out
+    }
+
     /// Commands stored since the previous observation, in (entity, version) order.
     fn new_cmds(&mut self) -> Vec<Value> {
         let mut out = vec![];
@@ -731,5 +812,39 @@ impl Sys {
             o.insert("rp".into(), self.rp_report(!due));
         }
         Value::Object(o)
+    }
+}
+
+
+/// The JSON path of the first difference between two values (objects by key, arrays by index).
+#[allow(dead_code)]
+pub fn json_first_diff(a: &Value, b: &Value, path: &str) -> Option<String> {
+    match (a, b) {
+        (Value::Object(x), Value::Object(y)) => {
+            let mut keys: Vec<&String> = x.keys().chain(y.keys()).collect();
+            keys.sort();
+            keys.dedup();
+            for k in keys {
+                // the two wall-clock-at-apply fields (not observable through the API)
+                if k == "last_key_change" || k == "since" { continue; }
+                match (x.get(k), y.get(k)) {
+                    (Some(u), Some(v)) => {
+                        if let Some(d) = json_first_diff(u, v, &format!("{path}.{k}")) { return Some(d); }
+                    }
+                    (Some(_), None) => return Some(format!("{path}.{k}<missing-in-reloaded>")),
+                    (None, Some(_)) => return Some(format!("{path}.{k}<missing-in-live>")),
+                    (None, None) => {}
+                }
+            }
+            None
+        }
+        (Value::Array(x), Value::Array(y)) => {
+            if x.len() != y.len() { return Some(format!("{path}<len {} vs {}>", x.len(), y.len())); }
+            for (i, (u, v)) in x.iter().zip(y.iter()).enumerate() {
+                if let Some(d) = json_first_diff(u, v, &format!("{path}[{i}]")) { return Some(d); }
+            }
+            None
+        }
+        _ => if a == b { None } else { Some(path.to_string()) },
     }
 }
